@@ -243,6 +243,10 @@ def index_model(it, recv: VStr, idx: VInt):
 
 def call_method(it, recv: VStr, name: str, args, kwargs):
     P = it.path
+    if it.spec_mode:
+        if any(isinstance(a, VNone) for a in args):
+            return vals.BOTTOM
+        args = [a.val if isinstance(a, VOpt) else a for a in args]
     if name in ("strip", "lstrip", "rstrip"):
         chars = args[0] if args else None
         return strip_model(it, recv, chars, left=name != "rstrip", right=name != "lstrip")
